@@ -242,7 +242,13 @@ void ConstrainedFDLayout::computePathLengths(
     //dumpSquareMatrix<double>(n,D);
     for(unsigned i=0;i<n;i++) {
         for(unsigned j=0;j<n;j++) {
-            if(i==j) continue;
+            if(i==j) {
+                // No forces are required between a node and itself.  The
+                // rows of G are not value-initialised, so give the diagonal
+                // (which readLinearG() hands out) a defined value.
+                G[i][j]=0;
+                continue;
+            }
             double& d=D[i][j];
             unsigned short& p=G[i][j];
             p=2;
